@@ -1029,6 +1029,9 @@ func NewModifiedFeatures(new Feature, features []b6.Feature, byID *FeaturesByID,
 	}
 	m.copied = append(m.copied, false)
 	for _, f := range features {
+		if f.FeatureID() == new.FeatureID() {
+			continue // References can form cycles; the feature itself is handled above.
+		}
 		if existing := byID.FindMutableFeatureByID(f.FeatureID()); existing != nil {
 			m.features = append(m.features, existing)
 			m.tokens = append(m.tokens, TokensForFeature(f))
@@ -1052,6 +1055,9 @@ func NewModifiedFeaturesWithCopies(new Feature, features []b6.Feature, byID *Fea
 	}
 	m.copied = append(m.copied, false)
 	for _, f := range features {
+		if f.FeatureID() == new.FeatureID() {
+			continue // References can form cycles; the feature itself is handled above.
+		}
 		if existing := byID.FindMutableFeatureByID(f.FeatureID()); existing != nil {
 			m.features = append(m.features, existing)
 			m.tokens = append(m.tokens, TokensForFeature(f))
